@@ -235,6 +235,10 @@ type hslab struct {
 	self atree.SlabID
 	refs []atree.SlabID
 	nil_ bool // a nil entry (pending or cached deletion); only in storage-state dumps
+	// a cache entry whose identifier is also a key of the write set: every reader of the storage
+	// takes the pending entry, the cached OBJECT may be dead (a data slab merged into its sibling by
+	// a request through a handle keeps nil elements and no longer encodes): dumped by key only
+	shadowed bool
 }
 
 // absSlab reduces one in-memory slab to (self, references) with the independent walker and
@@ -283,11 +287,16 @@ func liveHeap(ps *atree.PersistentSlabStorage, diff func(string)) []hslab {
 // storageState dumps write set, cache and ledger as abstract slabs (ledger registers are read by
 // the register walker directly).
 func storageState(ps *atree.PersistentSlabStorage, ledger *hx.Ledger, diff func(string)) (d, c, b []hslab) {
-	conv := func(m map[atree.SlabID]atree.Slab) []hslab {
+	deltas := atree.VerifDeltas(ps)
+	conv := func(m map[atree.SlabID]atree.Slab, isCache bool) []hslab {
 		var out []hslab
 		for id, s := range m {
 			if s == nil {
 				out = append(out, hslab{id: id, nil_: true})
+				continue
+			}
+			if _, pending := deltas[id]; isCache && pending {
+				out = append(out, hslab{id: id, shadowed: true})
 				continue
 			}
 			out = append(out, absSlab(id, s, diff))
@@ -295,8 +304,8 @@ func storageState(ps *atree.PersistentSlabStorage, ledger *hx.Ledger, diff func(
 		sort.Slice(out, func(i, j int) bool { return hx.IDLess(out[i].id, out[j].id) })
 		return out
 	}
-	d = conv(atree.VerifDeltas(ps))
-	c = conv(atree.VerifCache(ps))
+	d = conv(deltas, false)
+	c = conv(atree.VerifCache(ps), true)
 	for _, id := range ledger.SortedIDs() {
 		refs, err := regRefs(ledger.Seg[id])
 		if err != nil {
@@ -312,6 +321,10 @@ func heapLine(h []hslab) string {
 	for i, s := range h {
 		if s.nil_ {
 			parts[i] = hx.IDStr(s.id) + ":nil"
+			continue
+		}
+		if s.shadowed {
+			parts[i] = hx.IDStr(s.id) + ":shadowed"
 			continue
 		}
 		parts[i] = fmt.Sprintf("%s:%d:%s", hx.IDStr(s.id), s.self.AddressAsUint64(), strings.Join(idStrs(s.refs), ","))
@@ -404,4 +417,84 @@ func refsAndBroken(h []hslab, root atree.SlabID) (refs, broken []atree.SlabID) {
 	hx.SortIDs(refs)
 	hx.SortIDs(broken)
 	return
+}
+
+// expectedYield is the harness's own reading of what PersistentSlabStorage.SlabIterator has to
+// yield (identifiers with multiplicity): every non-nil pending slab, every non-nil cached slab
+// whose identifier is not a key of the write set and, level by level below each of them, every
+// referenced slab whose identifier is a key of NEITHER layer, read from the ledger each time it is
+// met (the references of a ledger register are read by the register walker).  notFound: a
+// reference met on the way resolves nowhere (the iterator must fail with SlabNotFound).
+// ok=false: no prediction (a register the walker cannot read, or more than 200000 fetches: a
+// reference cycle among registers that are not loaded).
+func expectedYield(ps *atree.PersistentSlabStorage, ledger *hx.Ledger) (ids []atree.SlabID, notFound bool, ok bool) {
+	deltas := atree.VerifDeltas(ps)
+	cache := atree.VerifCache(ps)
+	fetches := 0
+	below := func(s atree.Slab) bool {
+		level, err := refsByBytes(s)
+		if err != nil {
+			return false
+		}
+		for len(level) > 0 {
+			var next []atree.SlabID
+			for _, r := range level {
+				if _, in := deltas[r]; in {
+					continue
+				}
+				if _, in := cache[r]; in {
+					continue
+				}
+				reg, in := ledger.Seg[r]
+				if !in || len(reg) == 0 {
+					notFound = true
+					return true
+				}
+				if fetches++; fetches > 200000 {
+					return false
+				}
+				ids = append(ids, r)
+				rr, err := regRefs(reg)
+				if err != nil {
+					return false
+				}
+				next = append(next, rr...)
+			}
+			level = next
+		}
+		return true
+	}
+	for id, s := range deltas {
+		if s == nil {
+			continue
+		}
+		ids = append(ids, id)
+		if !below(s) {
+			return nil, false, false
+		}
+	}
+	for id, s := range cache {
+		if _, in := deltas[id]; in || s == nil {
+			continue
+		}
+		ids = append(ids, id)
+		if !below(s) {
+			return nil, false, false
+		}
+	}
+	hx.SortIDs(ids)
+	return ids, notFound, true
+}
+
+// sameSlabObjects: two snapshots of a layer hold the same keys and the same slab objects.
+func sameSlabObjects(a, b map[atree.SlabID]atree.Slab) bool {
+	if len(a) != len(b) {
+		return false
+	}
+	for k, v := range a {
+		if w, ok := b[k]; !ok || w != v {
+			return false
+		}
+	}
+	return true
 }
